@@ -400,7 +400,8 @@ fn exhaustive_read(which: usize, rep: &mut Report) {
                 tape.extend_from_slice(b"\r\n");
                 tape.extend_from_slice(&good);
                 tape.extend_from_slice(&good);
-                run_read_case(&ReadCase { tape, boundaries: vec![n / 2], faults: vec![(n / 3, ReadFault::Interrupted, 2)], reads: 4, label: "overlong_line_then_good_frames" }, rep);
+                // (interrupts also right behind the 523rd and the 1046th byte: where a line buffer sized for the longest frame is full)
+                run_read_case(&ReadCase { tape, boundaries: vec![n / 2], faults: vec![(n / 3, ReadFault::Interrupted, 2), (523, ReadFault::Interrupted, 1), (522, ReadFault::Interrupted, 1), (524, ReadFault::Interrupted, 2), (1046, ReadFault::Interrupted, 1)], reads: 4, label: "overlong_line_then_good_frames" }, rep);
             }
         }
     }
@@ -545,6 +546,14 @@ fn run_write_case(c: &WriteCase, rep: &mut Report) {
             }
         }
         Ok(Err(e)) => {
+            // once the sink has failed hard, the write is over: nothing more is offered to it (not by the call, and not by
+            // anything the call leaves behind to run when it returns)
+            let first_hard = w.log.iter().position(|ev| matches!(ev.returned, Err(k) if k != io::ErrorKind::Interrupted) || (ev.returned == Ok(0) && ev.offered > 0));
+            if let Some(i) = first_hard {
+                if w.log.len() > i + 1 {
+                    fail(rep, "sink_used_again_after_it_failed", format!("the sink failed at call #{}, yet {} more call(s) offered it data ({} bytes reached it after the failure)", i, w.log.len() - i - 1, w.log[i + 1..].iter().map(|ev| ev.returned.unwrap_or(0)).sum::<usize>()));
+                }
+            }
             if hard.is_empty() {
                 fail(rep, "error_without_sink_failure", format!("returned {} although the sink never failed", e));
             } else {
